@@ -180,7 +180,12 @@ theorem ident_conf_valid (cx : Cx) (hp : cx.plain) (ntd : Bool) : ∀ (t : Ty) (
   | .leaf _, _, _, hi, _ => by simp [Ty.packIdent, hp.1] at hi
   | .enum _ _, _, _, hi, _ => by simp [Ty.packIdent] at hi
   | .lit _, _, _, hi, _ => by simp [Ty.packIdent] at hi
-  | .opt _, _, _, hi, _ => by simp [Ty.packIdent] at hi
+  | .opt t, v, hf, hi, hc => by
+      simp only [Conf] at hc
+      rcases hc with rfl | hc
+      · simp [schemaOf, Valid, ValidAny, HasJT]
+      · have ih := ident_conf_valid cx hp ntd t v (by simpa [Frag] using hf) (by simpa [Ty.packIdent] using hi) hc
+        simp only [schemaOf, Valid, ValidAny]; exact Or.inl ih
   | .coll o _, _, _, hi, _ => by cases o <;> simp [Ty.packIdent, hp.2.1] at hi
   | .map o _ _, _, _, hi, _ => by cases o <;> simp [Ty.packIdent, hp.2.2] at hi
   | .chain _ _, _, _, hi, _ => by simp [Ty.packIdent] at hi
